@@ -1,6 +1,7 @@
 // C11 — the non-negative least-squares solvers return the constrained optimum (exhaustive small lattices).
 #include "engine/vf.hpp"
 #include "ref/linalg_ref.hpp"
+#include "monoproblems.hpp"
 #include <cholmod.h>
 #include <cfloat>
 extern "C" {
@@ -96,6 +97,39 @@ static void check_system(const Mat& A, const std::vector<ld>& b, const std::stri
   if (H->want_sample()) H->sample("{\"family\":\"" + fam + "\",\"system\":\"" + sys_str(A, b) + "\"}");
 }
 
+// larger sparse systems checked through the KKT residual: the normal equations of monotonic fits (as the fit builds them)
+static void run_fitsys(uint64_t idx) {
+  mp::NdCase C = mp::nd_case(idx, H->seed);
+  if (!C.valid) return;
+  fitref::Solution S = fitref::solve(C.P);
+  if (!S.spd || !(S.kappa <= 1e8L) || C.P.ncoef() > 400) { H->count("fit_systems_skipped_ill_posed_or_large"); return; }
+  Mat A; std::vector<ld> b; fitref::mono_system(C.P, S, C.mono, A, b);
+  size_t n = A.n; std::string fam = "fit-system:" + C.where; H->hint("fit-system d=" + std::to_string(C.d));
+  setenv("OMP_NUM_THREADS", std::to_string(C.nthreads).c_str(), 1);
+  ld nA = la::norm_inf(A), nb = 0; for (auto v : b) nb = std::max(nb, fabsl(v)); ld scale = std::max<ld>(1, std::max(nA, nb));
+  for (int s = 0; s < S_N; s++) {
+    if (s == S_LH_LS) continue;   // the least-squares form needs a Cholesky factor of an ill-conditioned matrix; covered by the lattices
+    std::vector<double> x; int w0 = g_walks;
+    bool ok = run_solver(s, A, b, x); bool walked = g_walks > w0; if (s == S_BLOCK3 && walked) H->count("block3_entered_line_search");
+    H->count("evaluations"); H->count("fit_systems_solved");
+    std::string cls = std::string(SN[s]) + ":fit-system" + (walked ? ":after-line-search" : "");
+    std::string where = vf::fmt("[%s n=%zu kappa=%.3g] %s", SN[s], n, (double)S.kappa, C.where.c_str());
+    if (!ok) { H->violation(cls + ":returned-null", where); continue; }
+    double tol_solver = s == S_BLOCK3 ? (double)n * DBL_EPSILON * 1e5 : (s == S_BLOCK || s == S_UPDOWN ? 1e-6 : LH_TOL);
+    bool bad = false; ld xmax = 0; for (auto v : x) { if (!std::isfinite(v)) { H->violation(cls + ":non-finite", where); bad = true; break; } xmax = std::max(xmax, fabsl((ld)v)); }
+    if (bad) continue;
+    for (size_t i = 0; i < n && !bad; i++) if (s == S_BLOCK3 ? (x[i] < 0) : (x[i] < -tol_solver * (double)scale)) { H->violation(cls + ":negative-component", where + vf::fmt(" x[%zu]=%.6g", i, x[i])); bad = true; }
+    for (size_t i = 0; i < n && !bad; i++) {
+      ld g = -b[i], ga = fabsl(b[i]); for (size_t j = 0; j < n; j++) { g += A(i, j) * (ld)x[j]; ga += fabsl(A(i, j) * (ld)x[j]); }
+      // the KKT residual is what the solver controls directly: its stopping constant (absolute) plus backward-stable linear algebra
+      ld tol = 10 * tol_solver * scale + 1e3 * n * 2.3e-16L * ga * std::max<ld>(1, sqrtl(S.kappa));
+      if (x[i] > 10 * tol_solver * (double)std::max<ld>(1, xmax)) { if (fabsl(g) > tol) { H->violation(cls + ":kkt-gradient-nonzero-on-positive-component", where + vf::fmt(" grad[%zu]=%.6g tol=%.3g x=%.6g", i, (double)g, (double)tol, x[i])); bad = true; } }
+      else if (g < -tol) { H->violation(cls + ":kkt-gradient-negative-on-zero-component", where + vf::fmt(" grad[%zu]=%.6g tol=%.3g", i, (double)g, (double)tol)); bad = true; }
+    }
+    H->cls(vf::fmt("%s|fit-system|d=%d|%s%s", SN[s], C.d, mp::DN[C.dk], walked ? "|walked" : ""));
+  }
+}
+
 static const double EPS[] = {1e-3, 1.0, 1e-6};
 static void run_lattice(int n, uint64_t idx, int neps) {
   uint64_t nM = 1; for (int i = 0; i < 3 * n; i++) nM *= 3;
@@ -131,10 +165,11 @@ int main(int argc, char** argv) {
   vf::Harness h("C11", argc, argv);
   H = &h;
   h.meta("level", "exploration");
-  h.meta("rule", "exhaustive lattices: n=2: A=M'M+eps*I for ALL M in {-1,0,1}^(3x2), eps in {1e-3,1} (thorough adds 1e-6), ALL b in {-2..2}^2; n=3: ALL M in {-1,0,1}^(3x3) x ALL b in {-1,0,1}^3; n=4..8 (thorough ..10): banded Toeplitz families (4,1),(2,-1),(6,-4,1) x 5 diagonal scalings up to 10^+-4 x all 2^n sign patterns of b, and degenerate right-hand sides b=A x* with zeros of x* on every subset (zero multiplier ties); every system through nnls_normal_block3, nnls_normal_block, nnls_normal_block_updown and nnls_lawson_hanson in normal-equation and least-squares form; oracle = 2^n active-set brute force in long double (KKT), tolerance tied to each solver's stated constant, problem scale and condition number; distinct = (solver, n, size of the optimal passive set, degenerate?, line search entered?)");
+  h.meta("rule", "exhaustive lattices: n=2: A=M'M+eps*I for ALL M in {-1,0,1}^(3x2), eps in {1e-3,1} (thorough adds 1e-6), ALL b in {-2..2}^2; n=3: ALL M in {-1,0,1}^(3x3) x ALL b in {-1,0,1}^3; n=4..8 (thorough ..10): banded Toeplitz families (4,1),(2,-1),(6,-4,1) x 5 diagonal scalings up to 10^+-4 x all 2^n sign patterns of b, and degenerate right-hand sides b=A x* with zeros of x* on every subset (zero multiplier ties); and the normal equations of every monotonic fit problem of the C10 alphabet (up to 400 unknowns, KKT residual only); every system through nnls_normal_block3, nnls_normal_block, nnls_normal_block_updown and nnls_lawson_hanson in normal-equation and least-squares form; oracle = 2^n active-set brute force in long double (KKT), tolerance tied to each solver's stated constant, problem scale and condition number; distinct = (solver, n, size of the optimal passive set, degenerate?, line search entered?)");
   h.meta("assumption", "reference: ref/linalg_ref.hpp; tolerances: block3 n*eps*1e5, block/updown KKT_TOL=1e-6, Lawson-Hanson tolerance argument 1e-10; times max(1,|A|,|b|) and cond(A)");
   h.meta("require_block3_entered_line_search", "50");
   h.meta("require_degenerate_systems", "50");
+  h.meta("require_fit_systems_solved", "1000");
   h.meta("deadline_quick", "900"); h.meta("deadline_thorough", "3000");
   h.timeout_s = 180;
   int neps = h.thorough ? 3 : 2;
@@ -142,5 +177,6 @@ int main(int argc, char** argv) {
   h.add_space("n3", 19683ull * neps, [neps](uint64_t i) { run_lattice(3, i, neps); });
   int nmax = h.thorough ? 10 : 8;
   h.add_space("families", (uint64_t)(nmax - 3) * 3 * 5 * 2, [nmax](uint64_t i) { run_family(i, nmax); });
+  h.add_space("fitsys", mp::ND_SIZE, run_fitsys);
   return h.main();
 }
